@@ -13,8 +13,10 @@ Three parties are compared on the same cases:
 (b) packets: the byte stream of the real `Channel.send` = the published frame (zlib's output is taken from the
     real run; length field, flag and trailer are compared); reference frames compressed at other zlib levels,
     compressed below the threshold or uncompressed above it are accepted by the real `Channel.recv`.
-(c) conversations: a real Connection talks to refcodec's peer (ping, getroot, inspect, getattr, callattr, call,
-    del, remote exceptions, close): every packet the real side emits is decoded with the reference decoder,
+(c) conversations: a real Connection talks to refcodec's peer and exercises EVERY published handler 1..20 (ping,
+    close, getroot, getattr, delattr, setattr, call, callattr, repr, str, cmp, hash, dir, pickle (refused), del,
+    inspect, buffiter, old slicing, leaving a `with proxy:` block (CTXEXIT), isinstance across the connection), plus
+    remote exceptions: every packet the real side emits is decoded with the reference decoder,
     checked against the published message layout and re-encoded (bytes equal; also rebuilt by the Lean
     `Msg.wire`); the peer answers in non-shortest forms and at other zlib levels and the real side must produce
     the expected Python values.  Vice versa the reference peer composes the requests and a real Connection
@@ -472,9 +474,11 @@ def run_client_conversation(seed, idx):
         ops.append((name, "ok"))
         return got
 
-    script = ["ping", "pingv", "attr", "attr", "extra", "add", "echo", "call", "fail", "stop", "missing", "big", "del"]
+    script = ["ping", "pingv", "attr", "attr", "extra", "add", "echo", "call", "fail", "stop", "missing", "big", "del",
+              "setdel", "strrepr", "hashcmp", "dir", "pickle", "buffiter", "oldslice", "with", "isinstance"]
     r.shuffle(script)
-    script = script[:r.range(5, len(script))]
+    if idx % FULL_EVERY != 0:              # every FULL_EVERY-th conversation runs the whole script: all 20 handlers
+        script = script[:r.range(6, len(script))]
     root = step("getroot", lambda: conn.root)
     for op in script:
         if root is None and op not in ("ping", "pingv", "big"):
@@ -516,6 +520,57 @@ def run_client_conversation(seed, idx):
         elif op == "del":
             g = step("getattr fn", lambda: root.fn)
             del g
+        elif op == "setdel":
+            v = conv_value(r)
+
+            def setit():
+                root.tmp = v
+            step("setattr tmp", setit)
+            step("getattr tmp", lambda: root.tmp, expect=(v,))
+
+            def delit():
+                del root.tmp
+            step("delattr tmp", delit)
+            step("getattr tmp (deleted)", lambda: root.tmp, raises=("AttributeError", None))
+        elif op == "strrepr":
+            step("str", lambda: str(root), expect=("<refpeer object 1>",))
+            step("repr", lambda: repr(root), expect=("<refpeer object 1>",))
+        elif op == "hashcmp":
+            step("hash", lambda: hash(root), expect=(1,))
+            step("cmp eq", lambda: root == 42, expect=(True,))
+            step("cmp ne", lambda: root != 42, expect=(False,))
+        elif op == "dir":
+            step("dir", lambda: tuple(dir(root)), expect=(tuple(sorted(peer.DIR)),))
+        elif op == "pickle":
+            step("pickle", lambda: root.__reduce_ex__(2), raises=("ValueError", None))
+        elif op == "buffiter":
+            from rpyc.utils.helpers import buffiter
+            chunk = r.choice([1, 2, 3, 7, 10])
+            step("buffiter/%d" % chunk, lambda: tuple(buffiter(root.it, chunk)), expect=(peer.ITEMS,))
+        elif op == "oldslice":
+            sq = step("getattr seq", lambda: root.seq)
+            if sq is not None:
+                a, b = r.range(0, 5), r.range(5, 10)
+                step("oldslicing", lambda: type(sq).__getslice__(sq, a, b), expect=(peer.SEQ_ITEMS[a:b],))
+                del sq
+        elif op == "with":
+            cx = step("getattr ctx", lambda: root.ctx)
+            if cx is not None:
+                before = len(peer.ctx_log)
+
+                def block():
+                    with cx as entered:
+                        return entered
+                step("with-block", block, expect=(1,))
+                if peer.ctx_log[before:] != ["enter", ("exit", None)]:
+                    problems.append("with-block: the peer saw %r, expected __enter__ by CALLATTR then CTXEXIT (ctx, None)"
+                                    % (peer.ctx_log[before:],))
+                del cx
+        elif op == "isinstance":
+            K = step("getattr Klass", lambda: root.Klass)
+            if K is not None:
+                step("isinstance", lambda: isinstance(root, K), expect=(True,))
+                del K
     root = None
     step("close", conn.close)
     try:
@@ -526,7 +581,45 @@ def run_client_conversation(seed, idx):
     if not peer.closed and not peer.problems:
         problems.append("the peer never received HANDLE_CLOSE")
     audit_real_frames(bytes(st.out), compress, problems, frames)
-    return dict(direction="client", problems=problems, frames=frames, ops=ops, forms=pol.used)
+    return dict(direction="client", problems=problems, frames=frames, ops=ops, forms=pol.used,
+                handlers=sorted(peer.handled))
+
+
+class Box:
+    """a plain object behind the real service: settable attribute, fixed str/repr/hash, == 5"""
+    def __eq__(self, other):
+        return other == 5
+
+    def __hash__(self):
+        return 1234
+
+    def __repr__(self):
+        return "Box!"
+
+    def __str__(self):
+        return "a box"
+
+
+class Seq:
+    def __getitem__(self, key):
+        return tuple(range(10))[key]
+
+
+class Ctx:
+    def __init__(self):
+        self.log = []
+
+    def __enter__(self):
+        self.log.append("enter")
+        return 1
+
+    def __exit__(self, *exc):
+        self.log.append(("exit",) + tuple(exc))
+        return False
+
+
+SERVER_CONFIG = {"allow_public_attrs": True, "allow_setattr": True, "allow_delattr": True}
+FULL_EVERY = 10
 
 
 def make_service():
@@ -535,6 +628,15 @@ def make_service():
     class Svc(rpyc.Service):
         exposed_answer = 42
         exposed_name = "real"
+        exposed_Klass = Box
+
+        def __init__(self):
+            self.exposed_box = Box()
+            self.exposed_seq = Seq()
+            self.exposed_ctx = Ctx()
+
+        def exposed_it(self):
+            return iter(range(7))
 
         def exposed_add(self, a, b):
             return a + b
@@ -559,9 +661,11 @@ def run_server_conversation(seed, idx):
     peer = refcodec.RefPeer(choose=pol, compress=r.chance(3, 4), level=r.choice([1, 6, 9, 0]),
                             force=r.choice([None, None, True, False]))
     st = make_loop_stream()
-    conn = make_service()._connect(channel.Channel(st, compress), {})
+    svc = make_service()
+    conn = svc._connect(channel.Channel(st, compress), dict(SERVER_CONFIG))
     consumed = [0]
     problems, ops, frames = [], [], []
+    answered = set()
     R = refcodec
 
     def rpc(name, handler, boxed, want=None, want_exc=None, no_reply=False):
@@ -590,6 +694,7 @@ def run_server_conversation(seed, idx):
             ops.append((name, "no response"))
             return None
         ops.append((name, msg[0]))
+        answered.add(R.HANDLERS[handler])
         if want_exc is not None:
             if msg[0] != "exception":
                 problems.append("%s: expected exception %s, got %r" % (name, want_exc, msg[:3]))
@@ -612,9 +717,24 @@ def run_server_conversation(seed, idx):
             return R.box_value(tuple(items))
         return R.box_tuple(R.box_local(x.id_pack) if isinstance(x, Ref) else R.box_value(x) for x in items)
 
-    script = ["ping", "ping", "big", "attr", "add", "echo", "callfn", "fail", "stop", "missing", "del", "badref"]
+    script = ["ping", "ping", "big", "attr", "add", "echo", "callfn", "fail", "stop", "missing", "badref",
+              "box", "strrepr", "hashcmp", "dir", "pickle", "inspect", "buffiter", "oldslice", "with", "isinstance"]
     r.shuffle(script)
-    script = script[:r.range(5, len(script))]
+    if idx % FULL_EVERY != 0:              # every FULL_EVERY-th conversation runs the whole script: all 20 handlers
+        script = script[:r.range(6, len(script))]
+
+    def fetch(name):
+        """a reference to the object behind root.<name>"""
+        b = rpc("getattr " + name, "GETATTR", args_boxed([root, name]))
+        if b is None:
+            return None
+        if b[0] != R.LABEL_REMOTE_REF:
+            problems.append("getattr %s: an object did not travel as LABEL_REMOTE_REF: %r" % (name, b))
+            return None
+        return Ref(b[1])
+
+    def value_of(b):
+        return b[1] if b is not None and b[0] == R.LABEL_VALUE else None
     rootb = rpc("getroot", "GETROOT", R.box_value(()))
     root = None
     if rootb is not None:
@@ -654,8 +774,75 @@ def run_server_conversation(seed, idx):
             rpc("callattr stop", "CALLATTR", args_boxed([root, "stop", (), ()]), want_exc="StopIteration")
         elif op == "missing":
             rpc("getattr missing", "GETATTR", args_boxed([root, "nothing_here"]), want_exc=("AttributeError", None))
-        elif op == "del":
-            pass
+        elif op == "box":
+            bx = fetch("box")
+            if bx is not None:
+                v = conv_value(r)
+                rpc("setattr val", "SETATTR", args_boxed([bx, "val", v]), want=(None,))
+                rpc("getattr val", "GETATTR", args_boxed([bx, "val"]), want=(v,))
+                if not same(getattr(svc.exposed_box, "val", Ellipsis), v):
+                    problems.append("setattr val: the real object does not hold the value")
+                rpc("delattr val", "DELATTR", args_boxed([bx, "val"]), want=(None,))
+                rpc("getattr val (deleted)", "GETATTR", args_boxed([bx, "val"]), want_exc=("AttributeError", None))
+                rpc("del box", "DEL", args_boxed([bx, 1]), want=(None,))
+        elif op == "strrepr":
+            bx = fetch("box")
+            if bx is not None:
+                rpc("str", "STR", args_boxed([bx]), want=("a box",))
+                rpc("repr", "REPR", args_boxed([bx]), want=("Box!",))
+        elif op == "hashcmp":
+            bx = fetch("box")
+            if bx is not None:
+                rpc("hash", "HASH", args_boxed([bx]), want=(1234,))
+                rpc("cmp eq", "CMP", args_boxed([bx, 5, "__eq__"]), want=(True,))
+                rpc("cmp eq", "CMP", args_boxed([bx, 6, "__eq__"]), want=(False,))
+        elif op == "dir":
+            bx = fetch("box")
+            if bx is not None:
+                names = value_of(rpc("dir", "DIR", args_boxed([bx])))
+                if not (type(names) is tuple and all(type(n) is str for n in names) and "__eq__" in names):
+                    problems.append("dir: reply is not a tuple of names containing __eq__: %r" % (names,))
+        elif op == "pickle":
+            bx = fetch("box")
+            if bx is not None:
+                rpc("pickle", "PICKLE", args_boxed([bx, 2]), want_exc=("ValueError", None))
+        elif op == "inspect":
+            cx = fetch("ctx")
+            if cx is not None:
+                ms = value_of(rpc("inspect", "INSPECT", R.box_value((cx.id_pack,))))
+                if not (type(ms) is tuple and all(type(m) is tuple and len(m) == 2 and type(m[0]) is str for m in ms)
+                        and "__enter__" in [m[0] for m in ms]):
+                    problems.append("inspect: reply is not a tuple of (name, doc) pairs containing __enter__: %r" % (ms,))
+        elif op == "buffiter":
+            itb = rpc("callattr it", "CALLATTR", args_boxed([root, "it", (), ()]))
+            if itb is not None and itb[0] == R.LABEL_REMOTE_REF:
+                k = r.range(1, 6)
+                rpc("buffiter/%d" % k, "BUFFITER", args_boxed([Ref(itb[1]), k]), want=(tuple(range(7))[:k],))
+                rpc("buffiter/10", "BUFFITER", args_boxed([Ref(itb[1]), 10]), want=(tuple(range(7))[k:],))
+                rpc("buffiter/end", "BUFFITER", args_boxed([Ref(itb[1]), 4]), want=((),))
+            elif itb is not None:
+                problems.append("callattr it: an iterator did not travel as LABEL_REMOTE_REF: %r" % (itb,))
+        elif op == "oldslice":
+            sq = fetch("seq")
+            if sq is not None:
+                a, b = r.range(0, 5), r.range(5, 10)
+                rpc("oldslicing", "OLDSLICING", args_boxed([sq, "__getitem__", "__getslice__", a, b, ()]),
+                    want=(tuple(range(10))[a:b],))
+        elif op == "with":
+            cx = fetch("ctx")
+            if cx is not None:
+                before = len(svc.exposed_ctx.log)
+                rpc("callattr __enter__", "CALLATTR", args_boxed([cx, "__enter__", (), ()]), want=(1,))
+                rpc("ctxexit", "CTXEXIT", args_boxed([cx, None]), want=(False,))
+                if svc.exposed_ctx.log[before:] != ["enter", ("exit", None, None, None)]:
+                    problems.append("ctxexit: the real context manager saw %r, expected __enter__ then __exit__(None, None, None)"
+                                    % (svc.exposed_ctx.log[before:],))
+        elif op == "isinstance":
+            kb, bx = fetch("Klass"), fetch("box")
+            if kb is not None and bx is not None:
+                if kb.id_pack[2] != 0:
+                    problems.append("getattr Klass: a class travelled with instance id %r, published: 0" % (kb.id_pack[2],))
+                rpc("instancecheck", "INSTANCECHECK", args_boxed([kb, tuple(bx.id_pack)]), want=(False,))
         elif op == "badref":
             rpc("getattr on unknown id", "GETATTR", R.box_tuple([R.box_local(("x.Y", 1, 2)), R.box_value("a")]),
                 want_exc=("KeyError", None))
@@ -663,7 +850,8 @@ def run_server_conversation(seed, idx):
     if not conn.closed:
         problems.append("the real connection did not close on HANDLE_CLOSE")
     audit_real_frames(bytes(st.out), compress, problems, frames)
-    return dict(direction="server", problems=problems, frames=frames, ops=ops, forms=pol.used)
+    return dict(direction="server", problems=problems, frames=frames, ops=ops, forms=pol.used,
+                handlers=sorted(answered | ({R.HANDLERS["CLOSE"]} if conn.closed else set())))
 
 
 def run_conversation(direction, seed, idx):
@@ -674,7 +862,7 @@ def run_conversation(direction, seed, idx):
     except Exception as ex:  # noqa
         import traceback
         return dict(direction=direction, problems=["conversation crashed: %s" % traceback.format_exc()[-600:]], frames=[],
-                    ops=[("crash", type(ex).__name__)], forms={})
+                    ops=[("crash", type(ex).__name__)], forms={}, handlers=[])
 
 
 # ---------------------------------------------------------------------------------------------- correspondence
@@ -690,7 +878,8 @@ def correspondence(ctx):
               "and by the model decoder; (b) Channel.send on payloads of 0..70000 bytes around 3000 and 64000, compress "
               "on/off, compressible and incompressible, vs the Lean frame; reference packets at zlib levels 0/1/6/9, "
               "compressed below / uncompressed above the threshold, through the real Channel.recv and the Lean recv; "
-              "(c) seeded conversations real Connection <-> reference peer in both roles, every real packet reference-"
+              "(c) seeded conversations real Connection <-> reference peer in both roles (every 10th runs the full script: all 20 "
+              "handler numbers in each direction, counted in handlers_exercised_per_direction), every real packet reference-"
               "decoded, layout-checked, re-encoded and rebuilt by Lean Msg.wire. Non-trivial: anything but the empty "
               "payload / None; distinct = distinct (part, constructor or op, size class, form set, outcome).")
     r = Rng(ctx.seed).fork("c19")
@@ -810,10 +999,13 @@ def correspondence(ctx):
     # (c) conversations
     n_conv = ctx.budget(100, 1000)
     conv_forms = {}
+    exercised = {"client": {}, "server": {}}
     for direction in ("client", "server"):
         for idx in range(n_conv):
             res = run_conversation(direction, ctx.seed, idx)
             c.evaluations += 1
+            for h in res["handlers"]:
+                exercised[direction][h] = exercised[direction].get(h, 0) + 1
             c.count("conversation:%s:%s" % (direction, "ok" if not res["problems"] else "PROBLEM"))
             for name, out in res["ops"]:
                 c.count("conv-op:%s:%s" % (name.split("/")[0].split("-")[0] if name.startswith("ping-") else name.split("/")[0], out))
@@ -832,6 +1024,14 @@ def correspondence(ctx):
                 c.samples.append(dict(part="conversation", direction=direction, ops=res["ops"][:14],
                                       real_packets=[(k, d.hex()[:80]) for k, _v, d in res["frames"][:5]]))
     c.extra["conversation_reference_forms_used"] = conv_forms
+    c.extra["handlers_exercised_per_direction"] = dict(
+        (d, dict((str(h), n) for h, n in sorted(m.items()))) for d, m in exercised.items())
+    for direction, m in exercised.items():
+        missing = sorted(set(refcodec.HANDLERS.values()) - set(m))
+        if missing:
+            disagree("handler-coverage", "direction=%s" % direction,
+                     "handlers %s were not exercised (served and answered) in any conversation" % missing,
+                     "every published handler 1..20 is exercised in each direction")
 
     ctx.log("conversations done: %d op lines, %.1f MB for the driver" % (len(lines), sum(len(l) for l in lines) / 1e6))
     # the Lean side
